@@ -173,11 +173,12 @@ class ResolveAnchorIds(Transform):
                 labelid = node["names"][0]
             if (
                 node.tagname == "footnote"
-                or "refuri" in node
+                or (isinstance(node, nodes.target) and "refuri" in node)
                 or node.tagname.startswith("desc_")
             ):
                 # ignore footnote labels, labels automatically generated from a
-                # link and object descriptions
+                # link (external hyperlink targets) and object descriptions;
+                # a link that carries an ``id`` attribute is a valid target
                 continue
 
             implicit_title = None
